@@ -1,10 +1,36 @@
-(** C06 — placeholder until EvalAbsProofs lands in this round. *)
+(** C06 — symbolic evaluation is sound substitution.  Property theorems only.
+    Proved (model EvalAbs.eval_expr, tied to eval_abs.eval_expr by exact-output correspondence): for register-only states (no
+    symbolic memory cell has been written), whose bindings map non-terminal identifiers to well-formed expressions of their width,
+    and for every expression of fragment 1 (C05) whose identifiers conform to a name signature (width, is_reg, is_term):
+    every result eval_expr returns is well formed, has the width of the argument, and — in EVERY concrete state rho, memory and
+    operator interpretation — evaluates to the value of the argument in the state where each bound identifier takes the value of
+    its binding in rho.  Terminal identifiers are never substituted; memory cells are read at the substituted address.
+    The proof goes through the simplifier (C05 theorem), constant evaluation of operators, conditionals with constant and
+    symbolic conditions, and the empty-memory path of the overlapping-read search.
+    NOT proved: states with written memory cells (overlap logic: decided by the history correspondence of C07), slices and
+    concatenations, shifts/rotates and the operators outside the model (XNotModelled), fuel exhaustion. *)
 From Coq Require Import ZArith List Bool String.
-From Mx Require Import Expr Simp EvalAbs.
+From Mx Require Import Expr Simp SimpProofs EvalAbs EvalAbsProofs.
 Import ListNotations.
 Open Scope Z_scope.
-Theorem C06_nary_xor_example :
-  eval_expr 20 (Pool [(EId "a" 8 false false, EInt false 8 1); (EId "b" 8 false false, EInt false 8 2); (EId "c" 8 false false, EInt false 8 4)] [])
-            (EOp "^" [EId "a" 8 false false; EId "b" 8 false false; EId "c" 8 false false]) = inl (Ok (EInt false 8 7)).
-Proof. vm_compute. reflexivity. Qed.
-Print Assumptions C06_nary_xor_example.
+
+Theorem C06_eval_expr_is_substitution : forall (Sig : string -> Z * bool * bool) (s : pool),
+  pool_mem s = [] -> Forall (binding_ok Sig) (pool_id s) ->
+  forall fuel e e', wf (IdQ Sig) e = true -> eval_expr fuel s e = inl (Ok e') ->
+  wf (IdQ Sig) e' = true /\ size e' = size e /\
+  forall rho mu iota, eval rho mu iota e' = eval (rho' s rho mu iota) mu iota e.
+Proof. exact eval_expr_is_substitution. Qed.
+Print Assumptions C06_eval_expr_is_substitution.
+
+(** non-vacuity: eax := init_eax + 1, ebx := 2;  (eax ^ ebx) + @32[eax] - eax  evaluates, all hypotheses hold *)
+Definition sig0 (n : string) : Z * bool * bool :=
+  if (n =? "init_eax")%string then (32, true, true) else (32, true, false).
+Definition st0 : pool :=
+  Pool [(EId "eax" 32 true false, EOp "+" [EId "init_eax" 32 true true; EInt false 32 1]); (EId "ebx" 32 true false, EInt false 32 2)] [].
+Definition e0 : expr :=
+  let eax := EId "eax" 32 true false in let ebx := EId "ebx" 32 true false in
+  EOp "+" [EOp "^" [eax; ebx]; EMem eax 32 None; EOp "-" [eax]].
+Example C06_nonvacuous :
+  wf (IdQ sig0) e0 = true /\ forallb (fun kv => wf (IdQ sig0) (snd kv) && (size (snd kv) =? 32)) (pool_id st0) = true /\
+  (match eval_expr 30 st0 e0 with inl (Ok _) => true | _ => false end) = true.
+Proof. vm_compute. repeat split; reflexivity. Qed.
